@@ -178,8 +178,18 @@ theorem range_map_getD (ns : List Nat) :
   · simp [hi, List.getD_eq_getElem?_getD]
   · simp [hi]
 
+/-- strictly increasing begins / ends along an axis: every piece has at least one cell, or the axis
+    has at most one piece (flat direction: the single entry 0) -/
+theorem sumList_take_strict' (ns : List Nat) (h : ns.length ≤ 1 ∨ ∀ n ∈ ns, 0 < n) (a b : Nat) (hab : a < b)
+    (hb : b < ns.length) :
+    sumList (ns.take a) < sumList (ns.take b) ∧ sumList (ns.take (a + 1)) < sumList (ns.take (b + 1)) := by
+  rcases h with h | h
+  · omega
+  · exact ⟨sumList_take_strict ns h a b hab (by omega),
+      sumList_take_strict ns h (a + 1) (b + 1) (by omega) (by omega)⟩
+
 /-- recovery of one axis from the multiset of piece extents along it, pieces listed in any order -/
-theorem axis_recovery (o : Int) (ns : List Nat) (hpos : ∀ n ∈ ns, 0 < n) (bs : List Nat)
+theorem axis_recovery (o : Int) (ns : List Nat) (hpos : ns.length ≤ 1 ∨ ∀ n ∈ ns, 0 < n) (bs : List Nat)
     (hbs : ∀ b, b ∈ bs ↔ b < ns.length) :
     uniqueSorted (bs.map (axisBegin o ns)) = (List.range ns.length).map (axisBegin o ns) ∧
     uniqueSorted (bs.map (axisEnd o ns)) = (List.range ns.length).map (axisEnd o ns) := by
@@ -187,17 +197,35 @@ theorem axis_recovery (o : Int) (ns : List Nat) (hpos : ∀ n ∈ ns, 0 < n) (bs
   · apply uniqueSorted_eq
     · apply range_map_sorted
       intro a b hab hb
-      have := sumList_take_strict ns hpos a b hab (by omega)
+      have := (sumList_take_strict' ns hpos a b hab hb).1
       simp only [axisBegin]; omega
     · intro y
       simp only [List.mem_map, List.mem_range, hbs]
   · apply uniqueSorted_eq
     · apply range_map_sorted
       intro a b hab hb
-      have := sumList_take_strict ns hpos (a + 1) (b + 1) (by omega) (by omega)
+      have := (sumList_take_strict' ns hpos a b hab hb).2
       simp only [axisEnd]; omega
     · intro y
       simp only [List.mem_map, List.mem_range, hbs]
+
+/-- differences of the recovered ends and begins = the cells per piece; `.index(begin)` = the position -/
+theorem axis_sizes_idx (o : Int) (ns : List Nat) (hpos : ns.length ≤ 1 ∨ ∀ n ∈ ns, 0 < n) :
+    List.zipWith (fun e b => e - b) ((List.range ns.length).map (axisEnd o ns))
+        ((List.range ns.length).map (axisBegin o ns)) = ns.map Int.ofNat ∧
+    ∀ b, b < ns.length → ((List.range ns.length).map (axisBegin o ns)).idxOf (axisBegin o ns b) = b := by
+  constructor
+  · rw [zipWith_map_same, ← range_map_getD]
+    apply List.map_congr_left
+    intro b hb'
+    simp only [List.mem_range] at hb'
+    simp only [axisEnd, axisBegin, sumList_take_succ ns b hb']
+    omega
+  · intro b hb'
+    apply idxOf_range_map _ _ _ hb'
+    intro a hab
+    have := (sumList_take_strict' ns hpos a b hab hb').1
+    simp only [axisBegin]; omega
 
 /-! ### assembling the ordinates of one axis (`PVTRReader._make_structured_mesh`) -/
 
@@ -257,5 +285,29 @@ theorem assembleLineGo_spec (W : List Int) (ns : List Nat) (hpos : ∀ n ∈ ns,
         -- W.take off ++ (W.drop off).take n = W.take (off + n)
         rw [List.take_add]
       · omega
+
+
+/-- a flat direction of the merged `.pvtr` grid keeps the single ordinate of the first listed piece -/
+theorem pvtrLine_flat (sd : StructuredDecomposition) (pieceOrds : List (List (List Int))) (dir : Nat)
+    (hm : sd.isMeshed dir = false) (hext : sd.mergedExtents.getD dir 0 = 0) (x : Int)
+    (hx : ((pieceOrds.getD 0 []).getD dir []).take 1 = [x]) : pvtrLine sd pieceOrds dir = some [x] := by
+  unfold pvtrLine
+  simp only [hm, Bool.false_eq_true, if_false]
+  rw [hx, hext]
+  rfl
+
+/-- a meshed direction: if the consulted pieces are the pieces of that axis in order, the ordinates
+    of the whole axis are reproduced -/
+theorem pvtrLine_meshed (sd : StructuredDecomposition) (pieceOrds : List (List (List Int))) (dir : Nat)
+    (hm : sd.isMeshed dir = true) (W : List Int) (ns : List Nat) (hpos : ∀ n ∈ ns, 0 < n) (hne : ns ≠ [])
+    (hlen : W.length = sumList ns + 1) (hext : (sd.mergedExtents.getD dir 0).toNat + 1 = W.length)
+    (hcons : ((List.range (sd.cellsPerAxis.getD dir []).length).mapM fun i => do
+          let id ← sd.domainIdChecked (pvtrDomainLocation sd (sd.meshedDimensions.idxOf dir) i)
+          pure ((pieceOrds.getD id []).getD dir [])) = some (axisPieces W 0 ns)) :
+    pvtrLine sd pieceOrds dir = some W := by
+  unfold pvtrLine
+  simp only [hm, if_true]
+  rw [hcons, hext]
+  exact assembleLineGo_spec W ns hpos hne _ 0 (by simp) (by simp) (by omega)
 
 end Fc.C06
